@@ -51,8 +51,10 @@ ASSUMPTIONS = [
     "sequences only: a reload is awaited (blocking service call) before the next op; overlapping reloads are not "
     "generated (the property speaks of sequences)",
     "import cycles between pyscript modules are not generated (a module is registered only after it has run)",
-    "every generated import is wrapped in try/except, so an absent import target never prevents its importer from "
-    "loading (what a file that fails to load leaves behind is not documented)",
+    "a file may fail while loading (raise at top level, or an unguarded import of an absent or failing module): "
+    "whether such a file is registered, and whether it is tried again while it still fails, is don't-care (what a "
+    "file that fails to load leaves behind is not documented); once the cause is repaired a reload must execute it, "
+    "and a file that has no reason to fail must run to its end",
     "app names, module names and sibling names are disjoint (the lookup order of an absolute import inside an app "
     "package - apps/ before modules/ - is not documented and is not exercised)",
     "a non-auto-loaded file that became visible since the last full reload (created / un-commented module or "
@@ -83,7 +85,8 @@ REACH_PROBES = [
     "strict_subset_reexecuted", "orphan_module", "optional_change", "package_shadows_module",
     "unreadable_skipped", "deleted_module_with_importers", "deleted_package_sibling", "import_of_absent_module",
     "sibling_imports_sibling", "touch_only", "name_reload_ignored_other_change", "task_in_flight_at_reload",
-    "stall_during_reload", "content_only_change",
+    "stall_during_reload", "content_only_change", "file_failed_to_load", "importer_failed_with_its_import",
+    "failed_file_loaded_after_repair",
 ]
 SHRINK_LISTS = [["ops"], ["spec", "files"], ["spec", "files", "*", "imports"]]
 
@@ -157,6 +160,8 @@ def file_src(f: dict) -> str:
         f"inst_{u} = sim.get('newinst')()",
         f"sim.mark('load', {u!r}, {g}, inst_{u}, pyscript.get_global_ctx())",
     ]
+    if f.get("boom"):
+        lines.append(f"raise ValueError('boom {u}')")  # this file fails while loading, before it imports anything
     for scope, name, form in f["imports"]:
         dots = "." if scope == "rel" else ""
         if form == "import":
@@ -165,7 +170,10 @@ def file_src(f: dict) -> str:
             stmt = f"from {dots}{name} import val as v_{name}"
         else:
             stmt = f"from {dots}{name} import *"
-        lines += ["try:", f"    {stmt}", "except Exception:", f"    sim.mark('impfail', {u!r}, {g}, {name!r})"]
+        if f.get("strict"):
+            lines.append(stmt)  # unguarded: a failing import makes this file fail to load as well
+        else:
+            lines += ["try:", f"    {stmt}", "except Exception:", f"    sim.mark('impfail', {u!r}, {g}, {name!r})"]
     lines += [
         f"val = {g}",
         f"cnt_{u} = 0",
@@ -183,6 +191,7 @@ def file_src(f: dict) -> str:
             f"    sim.mark('tend', {u!r}, {g}, inst_{u}, cnt_{u})",
             f"task.create(bg_{u})",
         ]
+    lines.append(f"sim.mark('loadok', {u!r}, {g}, inst_{u})")
     return "\n".join(lines) + "\n"
 
 
@@ -204,7 +213,8 @@ class Disk:
                 continue
             self.seq += 1
             self.files[f["path"]] = {"uid": f["uid"], "gen": 1, "imports": [list(i) for i in f["imports"]],
-                                     "task": f.get("task", 0), "mtime": self.seq}
+                                     "task": f.get("task", 0), "mtime": self.seq,
+                                     "boom": bool(f.get("boom")), "strict": bool(f.get("strict"))}
             self.uids.add(f["uid"])
 
     def initial_files(self) -> dict:
@@ -232,6 +242,8 @@ class Disk:
                 f["gen"] += 1
                 if op.get("imports") is not None:
                     f["imports"] = [list(i) for i in op["imports"]]
+                if op.get("boom") is not None:
+                    f["boom"] = bool(op["boom"])
                 if w is not None:
                     w.write_file(op["path"], file_src(f), mtime=1_700_000_000.0 + f["mtime"])
             elif w is not None:
@@ -242,7 +254,7 @@ class Disk:
             if op["path"] in self.files or nf["uid"] in self.uids or classify(op["path"]) is None:
                 return False
             f = {"uid": nf["uid"], "gen": 1, "imports": [list(i) for i in nf["imports"]], "task": nf.get("task", 0),
-                 "mtime": self._mtime()}
+                 "mtime": self._mtime(), "boom": bool(nf.get("boom")), "strict": bool(nf.get("strict"))}
             self.files[op["path"]] = f
             self.uids.add(nf["uid"])
             self.fresh.add(op["path"])
@@ -437,10 +449,14 @@ def close_changes(base: dict, loaded: dict, found: dict, use_wanted: bool, soft:
     return changed
 
 
-def simulate_exec(loaded: dict, found: dict, disk: Disk, changed: dict) -> tuple[dict, list]:
-    """Discard ``changed``, execute the changed auto-loaded files that exist, follow their imports."""
+def simulate_exec(loaded: dict, found: dict, disk: Disk, changed: dict) -> tuple[dict, list, set]:
+    """Discard ``changed``, execute the changed auto-loaded files that exist, follow their imports.
+
+    A file that raises while loading ("boom", or an unguarded import of something that is absent or itself fails to
+    load) is executed but not loaded: it is in ``executed`` and in ``failed`` and not in the resulting table."""
     now = {ctx: ent for ctx, ent in loaded.items() if ctx not in changed}
     executed: list[str] = []
+    failed: set[str] = set()
     running: set[str] = set()
 
     def run(ctx: str) -> bool:
@@ -450,16 +466,27 @@ def simulate_exec(loaded: dict, found: dict, disk: Disk, changed: dict) -> tuple
         running.add(ctx)
         f = disk.files[d["path"]]
         imports, wanted = [], []
-        for imp in f["imports"]:
+        ok = not f.get("boom")
+        for imp in (f["imports"] if ok else []):
             tgt = want_name(d, imp)
             if tgt is None:
+                if f.get("strict"):
+                    ok = False
+                    break
                 continue
             wanted.append(tgt)
             if tgt in now:
                 imports.append(tgt)
             elif tgt in found and not found[tgt]["autoload"] and run(tgt):
                 imports.append(tgt)
+            elif f.get("strict"):
+                ok = False
+                break
         running.discard(ctx)
+        if not ok:
+            executed.append(ctx)
+            failed.add(ctx)
+            return False
         now[ctx] = {"uid": f["uid"], "gen": f["gen"], "mtime": f["mtime"], "cfg": copy.deepcopy(d["cfg"]),
                     "path": d["path"], "kind": d["kind"], "imports": sorted(set(imports)),
                     "wanted": sorted(set(wanted))}
@@ -470,7 +497,7 @@ def simulate_exec(loaded: dict, found: dict, disk: Disk, changed: dict) -> tuple
         d = found.get(ctx)
         if d is not None and d["autoload"] and ctx not in now:
             run(ctx)
-    return now, executed
+    return now, executed, failed
 
 
 def reachable_from_autoload(loaded: dict) -> set:
@@ -497,9 +524,15 @@ def expectation(loaded: dict, disk: Disk, mode: str | None) -> dict:
     may_base = dict(opt_base)
     may_base.update(must_base)
     may_changed = close_changes(may_base, loaded, found, use_wanted=True)
-    must_after, must_exec = simulate_exec(loaded, found, disk, must_changed)
-    may_after, may_exec = simulate_exec(loaded, found, disk, may_changed)
+    must_after, must_exec_all, must_failed = simulate_exec(loaded, found, disk, must_changed)
+    may_after, may_exec, may_failed = simulate_exec(loaded, found, disk, may_changed)
+    # a file that fails to load need not be tried (what a failing file leaves behind, and whether it is tried again
+    # while it still fails, is not stated); one that loads must be executed
+    must_exec = [c for c in must_exec_all if c not in must_failed]
+    may_exec = sorted(set(may_exec) | set(must_exec_all))
     return {
+        "failed": must_failed | may_failed, "failed_def": must_failed & may_failed,
+        "ok_def": {c for c in must_exec if c not in may_failed},
         "found": found, "must_base": must_base, "opt_base": opt_base,
         "must_changed": must_changed, "may_changed": may_changed,
         "must_exec": must_exec, "may_exec": may_exec, "must_after": must_after, "may_after": may_after,
@@ -619,7 +652,20 @@ def gen(rng: random.Random, tier: str) -> dict:
         imports = _gen_imports(rng, info, mods_here, sibs_here.get(info["root"], []), rich)
         if steer:
             imports = [i2 for i2 in imports if not (i2[0] == "rel" and info["kind"].endswith("_sibling"))]
-        files.append({"uid": f"F{i}", "path": path, "imports": imports, "task": rng.choice(TASK_T)})
+        files.append({"uid": f"F{i}", "path": path, "imports": imports, "task": rng.choice(TASK_T),
+                      "boom": rng.random() < 0.05, "strict": bool(imports) and rng.random() < 0.3})
+    if rng.random() < 0.2:
+        # a module that fails while loading and that something imports without a guard: the importer fails with it
+        imported = sorted({i[1] for f in files for i in f["imports"] if i[0] == "abs"})
+        mods = [f for f in files if classify(f["path"])["kind"].startswith("module_")
+                and classify(f["path"])["name"] in imported and not classify(f["path"])["kind"].endswith("sibling")]
+        if mods:
+            bad = rng.choice(mods)
+            bad["boom"] = True
+            name = classify(bad["path"])["name"]
+            for f in files:
+                if any(i[0] == "abs" and i[1] == name for i in f["imports"]) and rng.random() < 0.7:
+                    f["strict"] = True
     apps = {}
     for name in APPS:
         if rng.random() < 0.7:
@@ -672,9 +718,14 @@ def _gen_edit(rng: random.Random, disk: Disk, next_uid: int, steer: bool) -> dic
     paths = sorted(disk.files)
     visible = [p for p in paths if not classify(p)["hidden"]]
     roll = rng.random()
+    broken = [p for p in visible if disk.files[p].get("boom")]
+    if broken and rng.random() < 0.3:
+        return {"kind": "modify", "path": rng.choice(broken), "boom": False}  # repair a file that fails to load
     if roll < 0.26 and paths:
         path = rng.choice(visible or paths)
         op = {"kind": "modify", "path": path}
+        if rng.random() < 0.06:
+            op["boom"] = True
         if rng.random() < 0.12:
             op["keep_mtime"] = True  # content replaced by a tool that preserves the modification time
         if rng.random() < 0.3:
@@ -705,7 +756,8 @@ def _gen_edit(rng: random.Random, disk: Disk, next_uid: int, steer: bool) -> dic
         if steer:
             imports = [i for i in imports if not (i[0] == "rel" and info["kind"].endswith("_sibling"))]
         return {"kind": "create", "path": path,
-                "file": {"uid": f"F{next_uid}", "imports": imports, "task": rng.choice(TASK_T)}}
+                "file": {"uid": f"F{next_uid}", "imports": imports, "task": rng.choice(TASK_T),
+                         "boom": rng.random() < 0.05, "strict": bool(imports) and rng.random() < 0.3}}
     if roll < 0.63 and paths:
         pool = visible or paths
         if steer:
@@ -768,10 +820,11 @@ def normalize(scn: dict) -> dict | None:
 
 def simplify(scn: dict):
     for fi, f in enumerate(scn["spec"]["files"]):
-        if f.get("task"):
-            cand = copy.deepcopy(scn)
-            cand["spec"]["files"][fi]["task"] = 0
-            yield cand
+        for key in ("task", "boom", "strict"):
+            if f.get(key):
+                cand = copy.deepcopy(scn)
+                cand["spec"]["files"][fi][key] = 0
+                yield cand
         for ii, imp in enumerate(f["imports"]):
             if imp[2] != "import":
                 cand = copy.deepcopy(scn)
@@ -790,9 +843,14 @@ def simplify(scn: dict):
             cand = copy.deepcopy(scn)
             cand["ops"][oi].pop("imports")
             yield cand
-        if op["kind"] == "create" and op["file"].get("task"):
+        for key in ("task", "boom", "strict"):
+            if op["kind"] == "create" and op["file"].get(key):
+                cand = copy.deepcopy(scn)
+                cand["ops"][oi]["file"][key] = 0
+                yield cand
+        if op["kind"] == "modify" and op.get("boom"):
             cand = copy.deepcopy(scn)
-            cand["ops"][oi]["file"]["task"] = 0
+            cand["ops"][oi].pop("boom")
             yield cand
         if op["kind"] == "create" and op["file"]["imports"]:
             cand = copy.deepcopy(scn)
@@ -871,6 +929,7 @@ class Judge:
         self.n_dontcare = 0
         self.last_reload_vt = 0.0
         self.reload_times: list = []
+        self.failed_before: set[str] = set()  # contexts whose latest execution did not reach the end of the file
         self.diverged = False   # a context with an undocumented name exists: outside the documented state space
         self.named = None
 
@@ -961,6 +1020,8 @@ class Judge:
         found = exp["found"]
         marks = self.take_marks()
         loads = [m for m in marks if m["args"] and m["args"][0] == "load"]
+        load_ok = {m["args"][3] for m in marks if m["args"] and m["args"][0] == "loadok"}  # instance tokens
+        failed_any, failed_def, ok_def = exp["failed"], exp["failed_def"], exp["ok_def"]
         present = actual_contexts()
         before = self.loaded
         must_exec, may_exec = set(exp["must_exec"]), set(exp["may_exec"])
@@ -1014,7 +1075,7 @@ class Judge:
         if self.diverged:
             return
         for name in sorted(executed):
-            if len(executed[name]) > 1:
+            if len(executed[name]) > 1 and name not in failed_any:
                 self.viol("C10.reexecuted_unexpectedly", {"mode": label, "place": "twice"},
                           f"{name} was executed {len(executed[name])} times by one {label} reload")
             if name not in may_exec and classify_ctx_known(name, found, before):
@@ -1022,6 +1083,21 @@ class Judge:
                 self.viol("C10.reexecuted_unexpectedly", {"mode": label, "place": kind},
                           f"{label} reload re-executed {name} although nothing it depends on changed "
                           f"(changed: {_fmt(exp['must_base'])}; optional: {_fmt(exp['opt_base'])})")
+        for name in sorted(executed):
+            ok_real = executed[name][-1]["args"][3] in load_ok
+            if name in failed_any:
+                w.probe("file_failed_to_load")
+                if found.get(name, {}).get("autoload") and not disk.files[found[name]["path"]].get("boom"):
+                    w.probe("importer_failed_with_its_import")
+            if name in ok_def and not ok_real:
+                self.viol("C10.load_did_not_finish", {"mode": label, "place": found[name]["kind"]},
+                          f"{label} reload executed {name} ({found[name]['path']}) but its top-level code did not run to "
+                          f"the end although nothing in it or in what it imports fails; error log: "
+                          f"{[r['msg'].strip().splitlines()[-1][:140] for r in w.logs if r['level'] == 'ERROR'][-2:]}")
+            if name in failed_def and ok_real:
+                raise HarnessError(f"C10 reference: {name} should fail while loading but ran to its end")
+            if ok_real and name in self.failed_before:
+                w.probe("failed_file_loaded_after_repair")
         for name in sorted(must_exec):
             if name not in executed:
                 sig = reason_sig(name, must_changed)
@@ -1033,7 +1109,7 @@ class Judge:
         self.n_exec += len(executed)
 
         # ---- (a) the set of contexts
-        must_present = ({c for c in before if c not in may_changed} - orphans) | must_exec
+        must_present = (({c for c in before if c not in may_changed} - orphans) | must_exec) - failed_any
         may_present = {c for c in before if c not in must_changed} | may_exec
         for ctx in present:
             if ctx in may_present:
@@ -1068,7 +1144,15 @@ class Judge:
 
         # ---- re-synchronise the reference with reality
         new_loaded: dict[str, dict] = {}
+        for ctx in sorted(executed):
+            if executed[ctx][-1]["args"][3] in load_ok:
+                self.failed_before.discard(ctx)
+            else:
+                self.failed_before.add(ctx)
         for ctx in present:
+            if ctx in executed and executed[ctx][-1]["args"][3] not in load_ok:
+                # executed but its load failed: not loaded as far as the reference goes, whatever is registered
+                continue
             if ctx in executed:
                 m = executed[ctx][-1]
                 uid, gen, inst = m["args"][1:4]
@@ -1102,7 +1186,7 @@ class Judge:
                 new_loaded[ctx] = before[ctx]
             # a context of unknown origin is left out of the reference (it was reported above)
         for ctx in list(self.cur_inst):
-            if ctx not in present:
+            if ctx not in new_loaded:
                 old = self.cur_inst.pop(ctx)
                 if old in self.inst:
                     self.inst[old]["until"] = t_start
